@@ -372,7 +372,14 @@ def run_proc(cmd, inp, timeout=120, env=None):
 
 
 def run_model(family, ops_text, timeout=300):
-    return run_proc([driver_path(), family], ops_text, timeout)
+    try:
+        return run_proc([driver_path(), family], ops_text, timeout)
+    except (FileNotFoundError, PermissionError):
+        # another check is relinking the driver at this moment (lake replaces the file): wait for its build, then retry
+        with Lock("lake"):
+            pass
+        time.sleep(0.5)
+        return run_proc([driver_path(), family], ops_text, timeout)
 
 
 def first_diff(a, b):
